@@ -204,6 +204,22 @@ func shadowCell(v interface{}) []interface{} {
 	return []interface{}{d.Name, d.Note}
 }
 
+// NameClash: column names that equal OTHER fields' Go names. Label and
+// Caption use each other's names as column names (swap); Alias is stored in
+// a column named like the Go field Headline, which itself is stored in "hl".
+type NameClash struct {
+	Label    string `gorm:"column:Caption"`
+	Caption  string `gorm:"column:Label"`
+	Alias    string `gorm:"column:Headline"`
+	Headline string `gorm:"column:hl"`
+}
+
+// cells in the order of the columns Caption, Label, Headline, hl
+func nameClashCell(v interface{}) []interface{} {
+	d := v.(NameClash)
+	return []interface{}{d.Label, d.Caption, d.Alias, d.Headline}
+}
+
 // twinCell: home_ea0, home_eb0, work_ea0, work_eb0 of any Twins* value.
 func twinCell(v interface{}) []interface{} {
 	rv := reflect.ValueOf(v)
@@ -692,6 +708,12 @@ func buildSpecs() []*Spec {
 	add(&Spec{Name: "embedded_anonymous_shadowed", Types: same(reflect.TypeOf(ShadowDoc{})), TagTmpl: "embedded;embeddedPrefix:sh%d_", ColTmpl: []string{"sh%d_name", "sh%d_note"},
 		Values: []Val{v("zero", ShadowDoc{}), v("outer", ShadowDoc{Name: "outer'n"}), v("both", ShadowDoc{ShadowBase: ShadowBase{Note: "c1"}, Name: "o2"}), v("note-only", ShadowDoc{ShadowBase: ShadowBase{Note: "c2"}})},
 		Cells:  shadowCell, MapRaw: true})
+
+	// column names colliding with other fields' Go names
+	add(&Spec{Name: "embedded_column_names_equal_other_go_names", Types: same(reflect.TypeOf(NameClash{})), TagTmpl: "embedded", FieldName: "Clash",
+		ColTmpl: []string{"Caption", "Label", "Headline", "hl"},
+		Values:  []Val{v("zero", NameClash{}), v("all", NameClash{Label: "L'1", Caption: "C1", Alias: "A1", Headline: "H1"}), v("all2", NameClash{Label: "L2", Caption: "C2", Alias: "A2", Headline: "H2"}), v("two", NameClash{Label: "L3", Headline: "H3"})},
+		Cells:   nameClashCell, MapRaw: true})
 
 	// --- fields excluded from the table -------------------------------------
 	for _, x := range [][2]string{{"ignored_migration", "->;-:migration"}, {"ignored_dash", "-"}, {"ignored_all", "-:all"}} {
